@@ -497,7 +497,7 @@ def check_cap_limit(ctx):
     _, ref, vcf, bam, _, _ = phase_cli.build_inputs(spec, wd)
     for k, want_ok in ((24, False), (23, True)):
         rc, so, se = run_cli(ctx, ["phase", "--reference", ref, "-o", os.path.join(wd, f"o{k}.vcf"),
-                                   "--internal-downsampling", k, vcf, bam], cwd=wd)
+                                   "--internal-downsampling", k, vcf] + list(bam), cwd=wd)
         ctx.count(("cap-limit", k), nontrivial=True)
         ctx.tally("cli.cap_limit_runs")
         if (rc == 0) != want_ok:
